@@ -769,7 +769,11 @@ pub fn signed_bitmessage_to_buf(
         false,
         metadata.op_code,
     )?;
-    debug_assert!(sig.is_none());
+    if sig.is_some() {
+        return Err(ProtoError::from(
+            "TSIG record is not in the additional section",
+        ));
+    }
 
     // Advance past additional records, up to the final TSIG record.
     let (_, _, sig) = Message::read_records(
@@ -778,7 +782,9 @@ pub fn signed_bitmessage_to_buf(
         true,
         metadata.op_code,
     )?;
-    debug_assert!(sig.is_none());
+    if sig.is_some() {
+        return Err(ProtoError::from("TSIG record is not the last record"));
+    }
     // Note the position of the decoder ahead of the final additional data TSIG record.
     let end_data = message.len() - decoder.len();
 
